@@ -141,6 +141,11 @@ func checkC11(tier, replay string) int {
 					for _, fl := range []uint32{0, 1, 2, 3} {
 						for _, lm := range []bool{false, true} {
 							cfgs = append(cfgs, c11Config{unpriv, nnpScript{NNP: nnp, Flags: fl, Choice: "stay", LoaderMain: lm}})
+							if !unpriv {
+								// prctl(2) itself is denied with EPERM by an outer filter: a requested bit cannot be set, so
+								// nothing may be installed without it
+								cfgs = append(cfgs, c11Config{unpriv, nnpScript{NNP: nnp, Flags: fl, Choice: "stay", LoaderMain: lm, DenyPrctl: true}})
+							}
 							for _, idle := range []int{0, 6} {
 								for _, wire := range []int{0, 12} {
 									cfgs = append(cfgs, c11Config{unpriv, nnpScript{NNP: nnp, Flags: fl, Choice: "move", IdleMs: idle, WireIdle: wire, LoaderMain: lm}})
@@ -196,13 +201,13 @@ func checkC11(tier, replay string) int {
 		fAfter, nnpAfter := countFilters(rep.After)
 		_, nnpBefore := countFilters(rep.Before)
 		if c.Script.NNP {
-			if rep.Err != nil {
+			if rep.Err != nil && !c.Script.DenyPrctl {
 				ctx.Violation("C11:load-failed:"+cls, fmt.Sprintf("NoNewPrivs was requested but LoadFilter failed: %s (prctl on thread %d, seccomp on thread %d, moved=%v, no_new_privs on the installing thread at the seam=%d)", *rep.Err, rep.PrctlTid, rep.SeamTid, rep.Moved, rep.NNPAtSeam), c)
 			}
 			if rep.SeamCalls > 0 && rep.NNPAtSeam != 1 {
 				ctx.Violation("C11:nnp-not-on-installing-thread:"+cls, fmt.Sprintf("the thread that installs the filter (tid %d) does not have no_new_privs set when seccomp(2) is entered (prctl ran on tid %d)", rep.SeamTid, rep.PrctlTid), c)
 			}
-			if rep.Err == nil && fAfter == 0 {
+			if rep.Err == nil && fAfter == 0 && !c.Script.DenyPrctl {
 				ctx.Violation("C11:nil-without-filter:"+cls, "LoadFilter returned nil but no thread carries a filter", c)
 			}
 		} else {
@@ -216,7 +221,7 @@ func checkC11(tier, replay string) int {
 				if fAfter != 0 {
 					ctx.Violation("C11:unpriv-load-installed:"+cls, "an unprivileged load without no_new_privs installed a filter", c)
 				}
-			} else if rep.Err != nil {
+			} else if rep.Err != nil && !c.Script.DenyPrctl {
 				ctx.Violation("C11:priv-load-failed:"+cls, "a privileged load without no_new_privs failed: "+*rep.Err, c)
 			}
 		}
